@@ -12,6 +12,7 @@ Case  c03.sp   payload [alts, rankings, mults, mode, cores]
 import itertools
 import random
 
+from . import common
 from .common import case, guarded, ordinal_instance, strict, rand_perm
 
 ID = "C03"
@@ -660,6 +661,9 @@ def impl(c):
     from preflibtools.properties.subdomains.ordinal.singlepeaked import singlepeakedness as SPM
     alts, rankings, mults, mode, cores = c["payload"]
     inst = ordinal_instance([(strict(r), mu) for r, mu in zip(rankings, mults)], data_type="soc", alts=list(alts))
+    salt = common.salt_of(c["payload"])
+    if salt % 3 == 0:       # call / in-place edit / call: the same object held a decoy profile of the same shape first
+        inst, _ = common.prime_stale(inst, [SPM.is_single_peaked], salt // 3)
     r = guarded(SPM.is_single_peaked, inst)
     if r[0] != 0:
         return r
